@@ -249,6 +249,138 @@ def menu(family, terms):
     return evs
 
 
+# ------------------------------------------------------------------ family F3: like-forms, like-less literals, type spellings
+# Histories: [prerequisite symbols / op nodes] ; constant or symbol A ; constant or symbol B  (every ordered pair of specs,
+# optionally after a perturbing first request), on Contexts with three parameter sets.  Reference model of a constant:
+# (value bits, normalised like) where the like of a like-less literal is the documented automatic symbol for the value's
+# Python/NumPy type (or the default constant type), a type given as string / NumPy class is its canonical type name, and
+# the documented like-normalisation maps negative(s) -> s and absolute(s) -> s for a real s (absolute of a complex symbol
+# stays: it is real-typed while the symbol is complex).
+
+F3_SYMS = [("x", "float32"), ("z", "complex64"), ("n", "int32"), ("n", "int64"), ("n", "np.int16"), ("n", "np.int64"), ("x", "float64")]
+F3_TYPES = ["float32", "np.float32", "float64", "int32", "np.int32", "int64", "np.int64", "np.int16", "complex64"]
+CANON_TYPE = {"float32": "float32", "np.float32": "float32", "float64": "float64", "np.float64": "float64", "int32": "integer32", "np.int32": "integer32", "int64": "integer64", "np.int64": "integer64",
+              "np.int16": "integer16", "complex64": "complex64", "float": "float", "complex": "complex"}
+F3_VALUES = ["f0", "fneg0", "f1", "int1", "np32_0", "np32_neg0", "true", "f2", "c0", "np64_1"]
+F3_CONFIGS = [{}, {"default_constant_type": "float32"}, {"enable_alt": True, "default_constant_type": "float32"}]
+
+
+def _typeobj(t):
+    return getattr(np, t[3:]) if t.startswith("np.") else t
+
+
+def f3_specs(level):
+    specs = [("sym", n, t) for n, t in F3_SYMS]
+    vals = F3_VALUES if level >= 1 else F3_VALUES[:7]
+    for v in vals:
+        specs.append(("const", v, ("none",)))
+        for t in F3_TYPES:
+            specs.append(("const", v, ("type", t)))
+        for n, t in F3_SYMS[:3] + F3_SYMS[6:]:
+            for form in ("sym", "absolute", "negative"):
+                specs.append(("const", v, (form, n, t)))
+    return specs
+
+
+def f3_term(spec, cfg):
+    if spec[0] == "sym":
+        return ("sym", spec[1], CANON_TYPE[spec[2]])
+    v = CONSTS[spec[1]]()
+    like = spec[2]
+    if like[0] == "none":
+        if isinstance(v, (bool, np.bool_)):
+            lt = ("auto", "boolean")
+        elif cfg.get("default_constant_type"):
+            lt = ("auto", "default", cfg["default_constant_type"])
+        else:
+            # the automatic like of a literal is the symbol _<kind>_value of the value's own type: the same symbol a type
+            # given explicitly produces
+            tn = type(v).__name__
+            lt = ("autotype", {"float": "float", "int": "integer", "complex": "complex", "float32": "float32", "float64": "float64", "complex64": "complex64", "complex128": "complex128",
+                               "int64": "integer64", "int32": "integer32", "longdouble": "float128", "clongdouble": "complex256"}.get(tn, tn))
+    elif like[0] == "type":
+        lt = ("autotype", CANON_TYPE[like[1]])
+    else:
+        form, n, t = like
+        base = ("sym", n, CANON_TYPE[t])
+        if form == "absolute" and CANON_TYPE[t].startswith("complex"):
+            lt = ("absolute", base)
+        else:
+            lt = base
+    return ("const",) + value_term(v) + (lt,)
+
+
+def f3_build(fa, ctx, spec, cache):
+    if spec[0] == "sym":
+        return ctx.symbol(spec[1], _typeobj(spec[2]))
+    v = CONSTS[spec[1]]()
+    like = spec[2]
+    if like[0] == "none":
+        return ctx.constant(v)
+    if like[0] == "type":
+        return ctx.constant(v, _typeobj(like[1]))
+    form, n, t = like
+    key = ("symnode", n, t)
+    if key not in cache:
+        cache[key] = ctx.symbol(n, _typeobj(t))
+    node = cache[key]
+    if form != "sym":
+        k2 = (form, n, t)
+        if k2 not in cache:
+            cache[k2] = fa.Expr(ctx, form, (node,))
+        node = cache[k2]
+    return ctx.constant(v, node)
+
+
+def w_f3(task):
+    fa = setup_repo_import()
+    part = new_part()
+    specs = f3_specs(task["level"])
+    cfg = F3_CONFIGS[task["cfg"]]
+    perturb = [None] + [specs[i] for i in task["perturb"]]
+    nstates = 0
+    for ia in range(task["lo"], len(specs), task["stride"]):
+        A = specs[ia]
+        for B in specs:
+            if A[0] == "sym" and B[0] == "const" and B[2][0] in ("none", "type"):
+                continue
+            for P in perturb:
+                hist = ([P] if P is not None else []) + [A, B]
+                part["evaluations"] += 1
+                nstates += 1
+                case = {"kind": "f3", "cfg": task["cfg"], "history": [list(map(lambda q: list(q) if isinstance(q, tuple) else q, h)) for h in hist]}
+                try:
+                    with quiet():
+                        ctx = fa.Context(**cfg)
+                        cache = {}
+                        nodes = [f3_build(fa, ctx, sp, cache) for sp in hist]
+                except Exception as e:
+                    bump(part, "f3_not_constructible_" + type(e).__name__)
+                    continue
+                terms = [f3_term(sp, cfg) for sp in hist]
+                a, b = nodes[-2], nodes[-1]
+                ta, tb = terms[-2], terms[-1]
+                if ta != tb:
+                    part["nontrivial"] += 1
+                if (a is b) and ta != tb:
+                    if ta[0] == "const" and tb[0] == "const":
+                        if ta[1:3] != tb[1:3]:
+                            cls = "constants-differing-only-in-sign-of-zero" if (ta[1] == tb[1] and _zero_bits(ta[2]) and _zero_bits(tb[2])) else "constants-of-different-value-or-type"
+                        else:
+                            cls = f"constants-with-different-likes:{ta[3][0]}-vs-{tb[3][0]}"
+                    elif ta[0] == "sym" and tb[0] == "sym":
+                        cls = "symbols-of-different-type"
+                    else:
+                        cls = "other"
+                    add_violation(part, f"false-sharing:{cls}", f"Context({cfg}): {hist[-2]} and {hist[-1]} are the same object but denote {ta} vs {tb}" + (f" (after {P})" if P else ""), case)
+                elif (a is not b) and ta == tb:
+                    add_violation(part, f"structurally-identical-but-distinct-objects:{ta[0]}:{'like-less' if ta[0] == 'const' and ta[3][0] == 'auto' else 'typed'}", f"Context({cfg}): {hist[-2]} and {hist[-1]} both denote {ta} but are different objects" + (f" (after {P})" if P else ""), case)
+    part["counters"]["f3_states"] = nstates
+    part["samples"].append({"family": "F3", "cfg": str(cfg), "specs": len(specs)})
+    return part
+
+
+
 def w_expand(task):
     """expand a slice of the frontier: for every history, every enabled event."""
     fa = setup_repo_import()
@@ -308,6 +440,14 @@ def run(run):
         total_states += len(seen)
         maxdepth = max(maxdepth, depth)
         run.counters[f"states_{family}"] = len(seen)
+    # family F3
+    specs = f3_specs(1 if thorough else 0)
+    run.counters["f3_specs"] = len(specs)
+    pidx = [specs.index(("const", "f0", ("none",))), specs.index(("const", "fneg0", ("sym", "x", "float32"))), specs.index(("sym", "n", "int64"))] if thorough else [specs.index(("const", "f0", ("none",)))]
+    run.map(MOD, "w_f3", [dict(level=1 if thorough else 0, cfg=c, lo=lo, stride=16, perturb=pidx) for c in range(len(F3_CONFIGS)) for lo in range(16)])
+    f3s = int(run.counters.pop("f3_states", 0))
+    total_states += f3s
+    total_trans += 3 * f3s
     run.nontrivial = total_states
     run.samples = sample_hists + run.samples
     run.coverage_extra["states"] = int(total_states)
@@ -318,7 +458,9 @@ def run(run):
         "level-synchronous BFS over construction histories of one Context: family F1 (6 typed symbols, 21 constant values incl. 0/0.0/-0.0/True/NaN shared+fresh/inf/"
         "named/NumPy scalars/complex zeros, ops add/lt/select) and F2 (leaves x,y,0,1; ops negative, absolute, real, add, subtract, multiply, lt, complex, list, select, "
         "Python-number operands +-0.0, 1, 2.0); bounded by distinct terms and history length; each transition rebuilds the history on a fresh Context and checks "
-        "`is` <=> structural-term equality between the new node and every earlier node"
+        "`is` <=> structural-term equality between the new node and every earlier node; family F3: every ordered pair of symbol/constant specs (like-less literals, "
+        "types given as strings / NumPy classes, likes that are symbols or negative/absolute of symbols incl. a complex one, integer widths) on three Context parameter sets, "
+        "alone and after a perturbing first request"
     )
     run.assumptions = ["like-expressions of constants are symbols (for which the package's like-normalisation is the identity)", "named constants are compared under the documented spelling normalisation (inf -> posinf)"]
     run.exhaustive = not any(k.startswith("frontier_capped") for k in run.counters)
@@ -327,6 +469,23 @@ def run(run):
 def replay(case):
     fa = setup_repo_import()
     part = new_part()
+    if case.get("kind") == "f3":
+        def tup(q):
+            return tuple(tup(x) for x in q) if isinstance(q, list) else q
+
+        hist = [tup(h) for h in case["history"]]
+        specs = f3_specs(1)
+        # re-run exactly this pair through the worker logic
+        cfg = F3_CONFIGS[case["cfg"]]
+        with quiet():
+            ctx = fa.Context(**cfg)
+            cache = {}
+            nodes = [f3_build(fa, ctx, sp, cache) for sp in hist]
+        terms = [f3_term(sp, cfg) for sp in hist]
+        a, b, ta, tb = nodes[-2], nodes[-1], terms[-2], terms[-1]
+        if (a is b) != (ta == tb):
+            return [("f3:identity-differs-from-structural-equality", f"{hist}: same object={a is b}, same term={ta == tb}")]
+        return []
     hist = tuple(tuple(tuple(x) if isinstance(x, list) else x for x in e) for e in case["history"])
     for n in range(1, len(hist) + 1):
         check_state(fa, part, hist[:n])
